@@ -71,7 +71,7 @@ pub fn run(ctx: &Ctx, replay: Option<&J>) -> CheckResult {
         "every df! field found in /repo/src/df/dfs.rs ({} fields) x bit patterns: ALL 2^w patterns for w<={} (enumerated, distinct by construction); \
          for wider fields boundary windows of 2^{} patterns around 0, the sign boundary and the top, one-hot/one-cold patterns, all patterns of the form (a<<s)+d (every shift s, up to 2^10 high parts a, |d|<=16: limb/mantissa \
          boundaries, prefix masks) and 2^{} seeded random patterns (these samples are not counted as distinct); the three hand-written bias codecs (1059/1065: 2^14, 1230: 2^16 patterns) enumerated completely \
-         through one-entry frames and the public API. oracle: pattern -> own bit writer -> decode -> encode -> own bit reader returns the pattern (only the \
+         through one-entry frames and the public API; MSM frames of all 49 types with random raw patterns in every satellite / cell field (message level: decode -> encode must reproduce the frame). oracle: pattern -> own bit writer -> decode -> encode -> own bit reader returns the pattern (only the \
          14 pinned sign-magnitude fields may map 10..0 to 0), written width == declared width, value finite, optional fields have exactly one absent pattern \
          which is what 'absent' encodes to. every pattern is non-trivial",
         FIELDS.len(),
@@ -105,6 +105,12 @@ pub fn run(ctx: &Ctx, replay: Option<&J>) -> CheckResult {
             let r = bias_roundtrip(m, c["signal_index"].as_u64().unwrap_or(0) as usize, c["satellite"].as_u64().unwrap_or(0) as u8, c["pattern"].as_u64().unwrap_or(0) as u16);
             if let Err((sig, msg)) = r {
                 vs.push(Violation { property: "C08".into(), signature: sig, message: msg, case: c.clone() });
+            }
+        } else if c["kind"] == "msm-frame" {
+            let f0 = crate::bits::unhex(c["bytes"].as_str().unwrap_or("")).unwrap_or_default();
+            let ok = catch(|| crate::msggen::decode_frame(&f0).filter(|m| crate::msggen::is_typed(m)).and_then(|m| crate::msggen::build(&m).ok()).map(|f1| f1 == f0).unwrap_or(false)).unwrap_or(false);
+            if !ok {
+                vs.push(Violation { property: "C08".into(), signature: "c08:msm:field-patterns-in-message".into(), message: "MSM frame does not survive decode -> encode".into(), case: c.clone() });
             }
         } else if c["kind"] == "absent-count" {
             // re-enumerate that field
@@ -352,6 +358,73 @@ pub fn run(ctx: &Ctx, replay: Option<&J>) -> CheckResult {
                 ev.excluded_known += 1;
             } else {
                 vs.push(x);
+            }
+        }
+    }
+    // ---- message level: every field of the MSM data blocks, inside a message ----
+    // a frame laid out per the standard with random raw patterns in every satellite/cell field must survive
+    // decode -> encode bit for bit (each pattern comes back in its own cell and column)
+    {
+        use crate::msm::{Cons, ALL_CONS};
+        let per = ctx.n(150, 6000);
+        let jobs: Vec<(Cons, u8)> = ALL_CONS.iter().flat_map(|c| (1..=7u8).map(move |l| (*c, l))).collect();
+        let parts: Vec<(u64, Vec<Violation>)> = jobs
+            .par_iter()
+            .map(|(cons, level)| {
+                let mut n = 0u64;
+                let mut vs = Vec::new();
+                let number = cons.base() + *level as u16;
+                if !crate::registry::is_supported(number) {
+                    return (n, vs);
+                }
+                let mut rng = ctx.rng("c08-msm", number as u64);
+                for i in 0..per {
+                    let spec = if i % 5 == 0 { crate::msm::spec_with_shape(&mut rng, *cons, *level, 64 / cons.table().len().min(16), cons.table().len().min(16)) } else { crate::msm::random_spec(&mut rng, *cons, *level, 64) };
+                    let p0 = spec.synth();
+                    if p0.len() > 1023 {
+                        continue;
+                    }
+                    let f0 = frame(&p0);
+                    n += 1;
+                    let r = catch(|| -> Result<(), String> {
+                        let m = crate::msggen::decode_frame(&f0).ok_or("own frame rejected")?;
+                        if !crate::msggen::is_typed(&m) {
+                            return Err(format!("decodes to {}", crate::registry::variant_name(&m)));
+                        }
+                        let f1 = crate::msggen::build(&m)?;
+                        if f1 != f0 {
+                            let pos = f1.iter().zip(f0.iter()).position(|(a, b)| a != b).unwrap_or(0);
+                            return Err(format!("re-encoded frame differs at byte {} ({} satellites, {} cells)", pos, spec.sats.len(), spec.ncells()));
+                        }
+                        Ok(())
+                    });
+                    let r = match r {
+                        Ok(r) => r,
+                        Err(p) => Err(format!("panic: {}", p)),
+                    };
+                    if let Err(e) = r {
+                        if vs.is_empty() {
+                            vs.push(Violation {
+                                property: "C08".into(),
+                                signature: format!("c08:msm{}:field-patterns-in-message", level),
+                                message: format!("{}: field patterns of an MSM frame do not survive decode -> encode: {}", number, e),
+                                case: json!({"kind":"msm-frame","bytes":hex(&f0)}),
+                            });
+                        }
+                    }
+                }
+                (n, vs)
+            })
+            .collect();
+        for (n, v) in parts {
+            ev.evaluations += n;
+            ev.class_n("msm frames with random field patterns (message level)", n);
+            for x in v {
+                if ctx.is_known(&x.signature) {
+                    ev.excluded_known += 1;
+                } else if !vs.iter().any(|y| y.signature == x.signature) {
+                    vs.push(x);
+                }
             }
         }
     }
